@@ -865,6 +865,13 @@ def plan(pid: str, tier: str, rng: random.Random) -> list[dict]:
             for at in range(0, 40 if thorough else 24):
                 for pol in (("fifo", "random", "lifo") if thorough else ("fifo", "random")):
                     add(kind="inject", what="cancel", at=at, spec=spec, name=n, policy=pol)
+    if pid in ("C17",):
+        # a cancel that arrives while the workflow is paused with tasks parked (the unpause comes with it)
+        for n in ("chain3", "multitask", "diamond", "syn_before_after"):
+            for at in range(2, 12 if thorough else 9):
+                for gap in (2, 4):
+                    add(kind="inject", what="pause", at=at, unpause_at=at + gap, spec=fam[n], name=n, policy=("fifo" if at % 2 else "random"),
+                        cancel_with_unpause=True)
     if pid in ("C06",):
         for n in (["chain3", "diamond", "multitask", "fail_terminal", "poll", "first_of"] if not thorough else list(fam)):
             spec = fam[n]
@@ -1014,7 +1021,7 @@ def monitor(pid: str, out: dict, base: dict | None) -> list[Violation]:
         vs += [v for v in M.m_c05(out) if v.signature.startswith(("stuck", "running-leftover"))]
     if pid == "C10" and kind == "inject" and what in ("recover", "recover_every") and base is not None:
         vs += M.m_outcome(out, base, "recovery sweep in a healthy run", exec_slack={})
-    if pid == "C17" and what == "cancel":
+    if pid == "C17" and (what == "cancel" or (what == "pause" and out["case"].get("cancel_with_unpause"))):
         vs += M.m_c17(out)
     if pid == "C18":
         vs += M.m_c18(out)
